@@ -286,12 +286,13 @@ class FifoEnvH(Harness):
                 if n >= 3:
                     variants += [dict(fail=1), dict(rej=1), dict(fail=0, rej=2)]
                 for var in variants:
+                    core = n == 3 and capacity == 1 and not rx and not rex and not var
                     if quick:
-                        d = 1
+                        d = 2 if core else 1      # one two-deviation core also in the quick tier
                     else:
                         d = 2 if n <= 3 else 1
                     out.append(dict(mode='env', n=n, capacity=capacity, rx=rx, rex=rex, bound=d,
-                                    cap=40000 if quick else 600000, **var))
+                                    cap=(100000 if core else 40000) if quick else 600000, **var))
         # slow / bursty sources: the consumer and the executor sit idle while the source pauses
         for gaps in ([0, 0.5], [0.5, 0, 0.5], [0, 1.0, 0.25]):
             out.append(dict(mode='env', n=len(gaps), capacity=1, rx=True, rex=True, gaps=gaps, bound=1 if quick else 2,
